@@ -23,6 +23,7 @@ REQUIRED_COUNTERS = ["c16_fits", "c16_steps_checked", "c16_gradients_compared", 
 MIN_NONTRIVIAL = {"quick": 250, "thorough": 3000}
 WORKERS = {"quick": 14, "thorough": 16}
 BUDGET_S = {"quick": 600, "thorough": 3000}
+THOROUGH_ROUNDS = 4
 
 
 def cases(tier, seed):
